@@ -521,7 +521,16 @@ fn lex(src: &str) -> Result<Vec<(Tok, Pos)>, ParseError> {
                         b'b' => v.push(8),
                         b'f' => v.push(12),
                         b'v' => v.push(11),
-                        b'x' | b'u' | b'U' | b'0'..=b'7' => {
+                        b'x' => {
+                            // \xNN: exactly two hex digits, one byte
+                            if i + 1 >= b.len() || !b[i].is_ascii_hexdigit() || !b[i + 1].is_ascii_hexdigit() {
+                                return Err(ParseError::Syntax { line, msg: "invalid \\x escape".into() });
+                            }
+                            let hv = u8::from_str_radix(&src[i..i + 2], 16).unwrap();
+                            v.push(hv);
+                            i += 2;
+                        }
+                        b'u' | b'U' | b'0'..=b'7' => {
                             return Err(ParseError::Unsupported {
                                 line,
                                 msg: "numeric string escape".into(),
